@@ -142,11 +142,119 @@ def _sequential_item(ex, st, k):
            'sequential branch: with raise_exceptions an item\'s exception is re-raised, never handed out as a result value')
 
 
+def _pooled_submit(ex, st, k):
+    """pooled branch, submission loop: item k is queued once, tagged with its own position k"""
+    import z3
+    from pyvc.values import VSeq, eq, to_int
+    evs_ = st.trace[getattr(st, 'iter_start_trace', 0):]
+    puts = [e for e in evs_ if e.name == 'put']
+    ok = len(puts) == 1 and isinstance(puts[0].args[-1], VSeq) and puts[0].args[-1].concrete and len(puts[0].args[-1].items) == 3
+    goal = z3.BoolVal(bool(ok))
+    if ok:
+        t = puts[0].args[-1].items
+        item = st.env['func_args'].elem(k)
+        goal = z3.And(goal, to_int(t[0]) == k, eq(t[1], item.items[0]), eq(t[2], item.items[1]))
+    yield ('task_tagged_with_its_position', goal,
+           'item k of the input is put on the task queue exactly once as (k, func_k, args_k): results can be re-ordered by that tag')
+
+
+def _pooled_protocol(ex, st, post, result):
+    import z3
+    from pyvc.values import to_int
+    if not T.evs(st, '_init_pool', 'ThreadPool._init_pool'):
+        return
+    gets = T.evs(st, '_get_results', 'ThreadPool._get_results')
+    joins = T.evs(st, 'join')
+    shut = T.evs(st, 'shutdown', 'ThreadPool.shutdown')
+    ok = len(gets) == 2 and len(joins) == 1 and len(shut) == 1 and gets[0][0] < joins[0][0] < gets[1][0] < shut[0][0]
+    goal = z3.BoolVal(bool(ok))
+    if ok:
+        a0 = [a for a in gets[0][1].args if a is not post.env['self']]
+        a1 = [a for a in gets[1][1].args if a is not post.env['self']]
+        # both passes use the SAME stash dictionary; the first starts at 0, the second continues where the first stopped
+        goal = z3.And(goal, z3.BoolVal(a0[1] is a1[1] and a0[2] is a1[2]), to_int(a0[0]) == 0,
+                      to_int(a1[0]) == gets[0][1].result.length())
+    yield ('two_passes_share_stash_and_counter', goal,
+           'pooled branch: collect what is available, task_queue.join() (all tasks done, so all results queued), collect the rest '
+           'with the same stash dict and next_result = number of results handed out so far, then shut the pool down')
+
+
 contract(A + 'ThreadPool.map_each', props=['C15'],
          types=dict(func_args='list[tuple[opaque,opaque]]', raise_exceptions='bool'), returns='list[opaque]',
-         default_callee='opaque', requires=['self.pool_size < 2'],
-         opaque_spec={'func': {'raises': ['Exception'], 'pure': True}, 'exc_info': {'pure': True}},
+         default_callee='opaque',
+         variants=[dict(requires=['self.pool_size < 2'], ensures=['len(result) == len(func_args)'], must_fail='len(result) == 0'),
+                   dict(requires=['self.pool_size >= 2'], ensures=[], must_fail=None, raises={'Exception': True})],
+         opaque_spec={'func': {'raises': ['Exception'], 'pure': True}, 'exc_info': {'pure': True},
+                      '_init_pool': {'pure': True}, 'put': {'pure': True}, 'join': {'pure': True}, 'shutdown': {'pure': True},
+                      '_get_results': {'returns': 'list[opaque]', 'raises': ['Exception']}},
+         opaque=['_init_pool', '_get_results', 'shutdown'],
          raises={'Exception': 'raise_exceptions'},
-         ensures=['len(result) == len(func_args)'],
-         loops={0: dict(yield_type='opaque', inv=['len(yielded) == _k'], body_trace=[_sequential_item])},
+         loops={0: dict(yield_type='opaque', inv=['len(yielded) == _k'], body_trace=[_sequential_item]),
+                1: dict(yield_type='opaque', inv=['len(yielded) == 0'], types={'i': 'int'}, body_trace=[_pooled_submit]),
+                2: dict(yield_type='opaque', inv=['next_result == len(yielded)', 'len(yielded) == _k'], types={'next_result': 'int'}),
+                3: dict(yield_type='opaque', inv=['next_result == len(yielded)'], types={'next_result': 'int'})},
+         trace=[_pooled_protocol])
+
+
+# ---- starmap: the one-item shortcut is taken only for ONE item --------------------------------------------------------------------
+def _starmap_dispatch(ex, st, post, result):
+    import z3
+    from pyvc.values import VSeq, eq
+    args = post.env['args']
+    single = T.evs(st, '_single_call', 'ThreadPool._single_call')
+    many = T.evs(st, 'map_each', 'ThreadPool.map_each')
+    goal = z3.BoolVal(len(single) + len(many) == 1)
+    if single:
+        # one direct call stands for the whole input list: only sound if the list has exactly one item, and it is that item
+        goal = z3.And(goal, args.length() == 1, eq(single[0][1].args[-2], args.elem(z3.IntVal(0))))
+    if many:
+        work = [a for a in many[0][1].args if isinstance(a, VSeq)]
+        ok = len(work) == 1
+        goal = z3.And(goal, z3.BoolVal(ok))
+        if ok:
+            i = z3.Int('sm_i')
+            goal = z3.And(goal, work[0].length() == args.length(),
+                          z3.ForAll([i], z3.Implies(z3.And(0 <= i, i < args.length()),
+                                                    z3.And(eq(work[0].elem(i).items[1], args.elem(i)),
+                                                           z3.BoolVal(True)))))
+    yield ('one_work_item_per_input', goal,
+           'starmap hands every argument tuple to the pool (one (func, arg) pair per input, in order); the direct-call '
+           'shortcut is used only when there is exactly ONE input')
+
+
+contract(A + 'ThreadPool.starmap', props=['C15'],
+         types=dict(func='opaque', args='list[opaque]', kw='opaque'), returns='opaque', default_callee='opaque',
+         requires=['len(args) >= 1'],
+         opaque_spec={'get': {'pure': True}, '_single_call': {'pure': True}, 'map_each': {'pure': True}, '_result_iter': {'pure': True}},
+         opaque=['_single_call', 'map_each', '_result_iter'],
+         trace=[_starmap_dispatch])
+
+
+# ---- the one-item shortcut and the result wrapper -------------------------------------------------------------------------------------
+def _single_call_mode(ex, st, post, result):
+    import z3
+    calls = T.evs(st, 'func')
+    wrap = T.evs(st, '_result_iter')
+    uro = post.env['use_result_objects']
+    goal = z3.BoolVal(len(calls) == 1 and len(wrap) == 1)
+    if calls and calls[0][1].raised:
+        goal = z3.And(goal, uro.t)        # reached the normal exit although the item failed: only in result-object mode
+    yield ('single_call_one_result', goal,
+           'one call, one wrapped result; a failing item reaches the caller as a value only in result-object mode')
+
+
+contract(A + 'ThreadPool._single_call', props=['C15'],
+         types=dict(func='opaque', args='opaque', use_result_objects='bool'), returns='opaque', default_callee='opaque',
+         opaque_spec={'func': {'raises': ['Exception'], 'pure': True}, 'exc_info': {'pure': True}, '_result_iter': {'pure': True}},
+         opaque=['_result_iter'],
+         raises={'Exception': 'not use_result_objects'},
+         trace=[_single_call_mode])
+
+contract(A + '_result_iter', props=['C15'],
+         types=dict(results='list[opaque]', use_result_objects='bool'), returns='list[opaque]', default_callee='opaque',
+         opaque_spec={'AsyncResult': {'pure': True}, 'isinstance': {'returns': 'bool', 'pure': True}},
+         ensures=['len(result) == len(results)',
+                  'implies(not use_result_objects, forall(lambda m: implies(0 <= m < len(result), result[m] == results[m])))'],
+         loops={0: dict(yield_type='opaque', inv=['len(yielded) == _k',
+                                                 'implies(not use_result_objects, forall(lambda m: implies(0 <= m < _k, yielded[m] == results[m])))'])},
          must_fail='len(result) == 0')
